@@ -781,7 +781,13 @@ def _vectorize_func(func):
 
     # What should work once that Jax backend is fully supported
     signature = inspect.signature(func)
-    func_vec = numpy.vectorize(func)
+
+    # Without `otypes`, numpy.vectorize takes the dtype of the whole output column from
+    # the result for the first row. A function annotated to return float may return an
+    # integer literal in some branch; if that happens for the first row, the results of
+    # all other rows would be truncated to integers.
+    returns_float = getattr(func, "__annotations__", {}).get("return") in (float, "float")
+    func_vec = numpy.vectorize(func, otypes=[float] if returns_float else None)
 
     @functools.wraps(func)
     def wrapper_vectorize_func(*args, **kwargs):
